@@ -64,6 +64,7 @@ def check(ctx):
     # every instantiation (also when the caller passed lvalues) - a wrapper holding a reference follows whatever the caller's variable
     # holds at dispatch time, or dangles once it is gone
     for tu in ctx.tus:
+        check_adapter_casts(ctx, tu)
         for key in ('ConditionalFunctor', 'ArgumentAdapter'):
             for c in tu.classes_by_key.get(key, []):
                 bad = []
@@ -383,6 +384,42 @@ def check_condfunctor(ctx, tu, f, ma):
     ctx.ob('C12.F5', f, 'the condition sees the arguments as lvalues, the function receives the same arguments in order', ca == want and fa == want and lv)
     vs, _ = ma.violations(f)
     ctx.ob('C12.F5', f, 'nothing is moved from before the function call', not vs, detail='\n'.join(v['msg'] for v in vs[:2]))
+
+
+def check_adapter_casts(ctx, tu):
+    """The conversion helpers of argumentAdapter: a plain parameter is static_cast from the incoming argument; a shared_ptr parameter
+    has to *share ownership* with the incoming pointer (static/dynamic/const_pointer_cast of it, or an aliasing construction whose owner
+    is the incoming pointer) - a pointer to the same address that owns nothing is not "the same argument value converted"."""
+    for f in tu.fns:
+        if not f.skey.startswith('adapter_internal_::StaticCast') or f.name != 'cast' or not f.params:
+            continue
+        pid = f.params[0]['id']
+        rets = f.return_nodes()
+        is_sp = 'shared_ptr' in f.clsq
+        ok = len(rets) == 1
+        detail = ''
+        if ok:
+            v = f.value_source(f.kids(rets[0])[0])
+            o = f.nodes[v]
+            if not is_sp:
+                ok = o['cls'] in ('CXXStaticCastExpr', 'CXXFunctionalCastExpr', 'CStyleCastExpr', 'ImplicitCastExpr', 'DeclRefExpr', 'CXXConstructExpr') and \
+                    any(f.nodes[d]['cls'] == 'DeclRefExpr' and f.decl(d).get('id') == pid for d in [v] + f.descendants(v))
+                detail = 'returned expression: %s' % o['cls']
+            else:
+                if f.is_call(v) and (f.callee(v) or {}).get('name') in ('static_pointer_cast', 'dynamic_pointer_cast', 'const_pointer_cast'):
+                    a = f.call_args(v)
+                    ok = len(a) == 1 and root_var_id(path(f, f.value_source(a[0]), resolve_refs=False)) == pid
+                    detail = 'pointer cast of %s' % (pstr(path(f, a[0])) if a else '?')
+                elif f.is_construct(v):
+                    a = [x for x in f.nodes[v].get('args', []) if f.nodes[x]['cls'] != 'CXXDefaultArgExpr']
+                    owner = root_var_id(path(f, f.value_source(a[0]), resolve_refs=False)) if a else None
+                    ok = owner == pid
+                    detail = 'shared_ptr constructed with owner %s' % ('the incoming pointer' if ok else 'something else (%s)' % (f.nodes[f.value_source(a[0])]['cls'] if a else 'nothing'))
+                else:
+                    ok = False
+                    detail = 'returned expression: %s' % o['cls']
+        ctx.ob('C12.F5', f, 'the converted %s the incoming argument' % ('shared_ptr shares ownership with' if is_sp else 'value is a cast of'), ok,
+               detail=detail, key_detail='adapter cast ' + ('shared_ptr' if is_sp else 'value'))
 
 
 def check_adapter(ctx, tu, f):
